@@ -1,7 +1,7 @@
 (** C10 — non-vacuity: a concrete schema satisfying the guards, with members and non-members of
     the emitted aliases on both sides. *)
 From V Require Import Base.Util Gql.Ast Writer.Wop Ts.TsType Ts.TsDen
-  C10.Model C10.Spec C10.DenLemmas C10.Proofs C10.Proofs2 C10.NameProofs C10.ResolverProofs C10.ResolverArgs C10.ResolverDen.
+  C10.Model C10.Spec C10.DenLemmas C10.Proofs C10.Proofs2 C10.NameProofs C10.ResolverProofs C10.ResolverArgs C10.ResolverDen C10.ResolverMain.
 
 Definition ex_ty (n : String.string) : ty := TNamed (id0 n).
 Arguments ex_ty n%string_scope.
@@ -118,3 +118,12 @@ Example ex_resolver_args :
   /\ has_type_b (res_in_env ms) 40 (arguments_definition_to_ts default_ropts args) (VObj [(s "n", VNum); (s "e", VNull)]) = Some true
   /\ has_type_b (res_in_env ms) 40 (arguments_definition_to_ts default_ropts args) (VObj [(s "n", VNum)]) = Some false.
 Proof. vm_compute. repeat split; reflexivity. Qed.
+
+(** the guard of C10_resolvers_field_exact is satisfiable (schema with interface, union, renamed object, arguments) *)
+Definition ex_doc_args : tsdoc :=
+  ex_doc ++ [TSType (TDObject None pos0 (id0 "Mutation") [] []
+               [mkFieldDef None (id0 "set") (Some [mkInputVal None pos0 (id0 "id") (TNonNull (ex_ty "ID")) None [];
+                                                  mkInputVal None pos0 (id0 "tags") (TList pos0 (TNonNull (ex_ty "In"))) None []])
+                           (TNonNull (TList pos0 (ex_ty "Node"))) []] (kw0 "type"))].
+Example ex_resolvers_guard : resolvers_guard ex_opts default_ropts ex_doc_args = true.
+Proof. vm_compute. reflexivity. Qed.
